@@ -46,7 +46,11 @@ def run(ctx):
     prof = dict(family.PROFILES['C02'], max_steps=4)
     items += family.make_items(rng, prof, 10 if ctx.quick else 120, 1)
     items += check_c14.rerun_items(ctx)(rng)[:(6 if ctx.quick else 80)]
-    items += check_c13.items_for(ctx)(rng)[:(6 if ctx.quick else 60)]
+    # loop steps: many items finishing (and failing) at the same time under full parallelism, then the C13 shapes
+    for n, par, outs in [(8, 8, ['error'] * 6 + ['success'] * 2), (6, 6, ['crash'] * 6), (6, 3, ['success'] * 6), (5, 5, ['error', 'success', 'crash', 'error', 'success'])]:
+        for rep in range(1 if ctx.quick else 6):
+            items.append(check_c13.loop_item(rng, n, par, outs, delays=[2] * n))
+    items += check_c13.items_for(ctx)(rng)[:(4 if ctx.quick else 60)]
     items += check_c06.items_for(ctx)(rng)[:(10 if ctx.quick else 150)]
     scs = []
     for it in items:
@@ -55,6 +59,11 @@ def run(ctx):
         sc['prepare_parallel'] = 3
         sc['timeout_ms'] = 60000
         scs.append(sc)
+        # the same scenario with the hooks inert: the event sink orders the goroutines that emit (a mutex and an atomic
+        # sequence number), which can hide a race between two of them; without it only the engine's own synchronisation
+        # orders them (time-based cancellation still applies, hook-point schedules do not)
+        sc2 = dict(sc, nohooks=True)
+        scs.append(sc2)
     env_old = os.environ.get('GORACE')
     os.environ['GORACE'] = 'halt_on_error=0 history_size=2'
     vlib.GOENV['GORACE'] = os.environ['GORACE']
@@ -79,6 +88,6 @@ def run(ctx):
     ctx.level = 'exploration'
     ctx.cov(evaluations=total, distinct_nontrivial=len({json.dumps(s.get('files', s.get('actions')), sort_keys=True) for s in scs + stepscs}),
             races_outside_engine=sorted(others)[:10],
-            rule='the generators and schedules of C02/C06/C13/C14/C12 (noise, cancellation at hook points, overlapped runs of one prepared workflow, loop steps, overlapped provider calls, a second concurrent preparation) executed with a -race build; a report counts when an engine frame takes part in one of the racing accesses',
+            rule='the generators and schedules of C02/C06/C13/C14/C12 (noise, cancellation at hook points, overlapped runs of one prepared workflow, loop steps, overlapped provider calls, a second concurrent preparation) executed with a -race build, each once with the recording hooks and once with the hooks inert (so that the lock of the recorder cannot order the racing goroutines); a report counts when an engine frame takes part in one of the racing accesses',
             samples=[{'workflow_yaml': scs[0]['files']['workflow.yaml'][:800], 'schedule': scs[0].get('schedule')}])
     ctx.assumptions = ['the Go race detector only sees races on executed schedules; the model contributes the schedules', 'races wholly inside dependencies or the harness are listed, not counted']
